@@ -30,7 +30,8 @@ def _run_bounded(args):
     ob = R.BOUNDED[name]
     t0 = time.time()
     try:
-        r = ob.fn(random.Random(seed * 104729 + hash(name) % 1000), tier)
+        import zlib
+        r = ob.fn(random.Random(seed * 104729 + zlib.crc32(name.encode()) % 1000), tier)
         r = dict(r); r['name'] = name; r['wall'] = time.time() - t0; r.setdefault('failures', [])
         r['status'] = 'failed' if r['failures'] else 'passed'
         return r
